@@ -393,3 +393,68 @@ _pb.own_config = True
 _pb.contracts = dict(contracts_tms, **contracts_bk)
 proofs.append(_pb)
 refuters[_pb.name] = refute_storage
+
+
+# ---------------------------------------------------------------------------------------------
+# SyncMetricStorage::Collect (sdk/src/metrics/state/sync_metric_storage.cc): "each measurement falling in exactly one collection interval": the
+# live map is handed to the temporal storage exactly once and replaced by a fresh empty one in the same step.
+TU_SMS = ("tu_sync_storage", '#include "%s/sdk/src/metrics/state/sync_metric_storage.cc"\n' % R.core.REPO)
+SMS_PRE = r"""
+typedef struct xc_ahm { char xc_unused; } xc_ahm;
+unsigned long g_build_calls, g_new_map_calls; const void *g_build_delta, *g_build_collector, *g_build_self; long g_build_start, g_build_end; int g_build_ret;
+static void xc_havoc_ghosts(void) { int r; g_build_calls = 0; g_new_map_calls = 0; g_build_delta = g_build_collector = g_build_self = 0; g_build_start = g_build_end = 0; g_build_ret = r; }
+"""
+SMS_POST = r"""
+static xc_ahm xc_o_fresh;
+static xc_ahm *xc_new_ahm(void) { g_new_map_calls++; return &xc_o_fresh; }
+static bool xc_buildMetrics(const void *tms, const void *collector, SystemTimestamp start, SystemTimestamp end, const xc_ahm *delta)
+{ g_build_calls++; g_build_self = tms; g_build_collector = collector; g_build_start = start.nanos_since_epoch_; g_build_end = end.nanos_since_epoch_; g_build_delta = delta; return g_build_ret != 0; }
+"""
+
+
+def _sms_types(em, base, targs, name):
+    if base in ("std::unique_ptr", "std::shared_ptr") and targs and targs[0].strip().split("::")[-1].startswith("AttributesHashMap"):
+        return CT_("xc_ahm", 1)
+    if base in ("nostd::function_ref", "function_ref", "nostd::span", "span"):
+        return CT_("xc_opaque")
+    return None
+
+
+def _configure_sms(cfg):
+    common.sdk_trace_boundary(cfg)
+    common.chrono_boundary(cfg)
+    cfg.type_handlers.insert(0, _sms_types)
+    cfg.value_classes |= {"SystemTimestamp"}
+    cfg.drop_types = getattr(cfg, "drop_types", set()) | {"std::lock_guard"}
+    for r in ("sdk::metrics::TemporalMetricStorage", "sdk::metrics::CollectorHandle", "sdk::metrics::InstrumentDescriptor", "common::SpinLockMutex", "sdk::metrics::AttributesProcessor"):
+        cfg.opaque_records[r] = "xc_opaque"
+    cfg.ctor_ext["std::shared_ptr"] = lambda em, node, args: (em.expr(args[0]) if args else "NULL")
+    cfg.ctor_ext["std::unique_ptr"] = lambda em, node, args: (em.expr(args[0]) if args else "NULL")
+    for U in ("std::unique_ptr::", "std::shared_ptr::", "std::__shared_ptr::"):
+        cfg.ext_methods[U + "reset"] = lambda em, recv, args, n: "%s = %s" % (recv, em.expr(args[0]) if [a for a in args if a.get("kind") != "CXXDefaultArgExpr"] else "NULL")
+        cfg.ext_methods[U + "operator="] = lambda em, recv, args, n: "%s = %s" % (recv, em.expr(args[0]))
+    cfg.ext["new"] = lambda em, n: "xc_new_ahm()"
+    cfg.ext_q["TemporalMetricStorage::buildMetrics"] = lambda em, node, recv, args: "xc_buildMetrics((const void *)%s, (const void *)%s, %s, %s, %s)" % (
+        em.addr_of(recv["node"] if isinstance(recv, dict) and recv.get("xc_is_ptr") else recv), em.expr(args[0]), em.expr(args[2]), em.expr(args[3]), em.expr(args[4]))
+
+
+contracts_sms = {"SyncMetricStorage_Collect": {"pre":
+    "__CPROVER_requires(__CPROVER_is_fresh(self, sizeof(*self)) && __CPROVER_is_fresh(self->attributes_hashmap_, sizeof(xc_ahm)))\n"
+    "__CPROVER_assigns(self->attributes_hashmap_, g_build_calls, g_new_map_calls, g_build_delta, g_build_collector, g_build_self, g_build_start, g_build_end)\n"
+    # the map that was collecting measurements is handed over exactly once, to this storage's temporal storage, for the calling collector and interval ...
+    "__CPROVER_ensures(g_build_calls == 1 && g_build_delta == __CPROVER_old(self->attributes_hashmap_) && g_build_self == &self->temporal_metric_storage_ && g_build_collector == collector)\n"
+    "__CPROVER_ensures(g_build_start == sdk_start_ts.nanos_since_epoch_ && g_build_end == collection_ts.nanos_since_epoch_ && __CPROVER_return_value == (g_build_ret != 0))\n"
+    # ... and from now on measurements go into a fresh map (one allocation), so each measurement falls in exactly one collection
+    "__CPROVER_ensures(g_new_map_calls == 1 && self->attributes_hashmap_ == &xc_o_fresh && self->attributes_hashmap_ != __CPROVER_old(self->attributes_hashmap_))\n"}}
+_ps = Proof("SyncStorage_Collect", [("SyncMetricStorage::Collect", 5)], enforce="SyncMetricStorage_Collect", timeout=300,
+            desc="the live map is handed to the temporal storage exactly once and replaced by a fresh one in the same step")
+_ps.tu = TU_SMS
+_ps.pre_c = SMS_PRE
+_ps.post_struct_c = SMS_POST
+_ps.spec_headers = ("xc_trace_boundary.h",)
+_ps.force_records = ("common::SystemTimestamp",)
+_ps.configure = _configure_sms
+_ps.own_config = True
+_ps.contracts = contracts_sms
+proofs.append(_ps)
+refuters[_ps.name] = refute_storage
